@@ -11,7 +11,8 @@
     ([setup_ok]), every earlier content / state [st], every list of uses. *)
 From Coq Require Import List NArith ZArith Bool Permutation Sorted.
 Import ListNotations.
-Require Import Celma.Common.Res Celma.ArgH.Key Celma.ArgH.Handler Celma.ArgH.Cont Celma.ArgH.ContProofs.
+Require Import Celma.Common.Res Celma.ArgH.Key Celma.ArgH.Handler Celma.ArgH.Cont Celma.ArgH.ContProofs
+  Celma.ArgH.ContProofs2.
 
 (** The destination after any list of uses is the fold over the concatenated
     elements: earlier content discarded once if so configured, then every
@@ -38,18 +39,37 @@ Print Assumptions C06_cont_cut_independent.
 
 (** In multi-value mode a free value is one more use of the argument ... *)
 Theorem C06_cont_free_values :
-  forall stp o st us,
-    o_multi o = true \/ forallb is_key us = true ->
-    run_events stp o st true us = run_uses_gen stp o st (map use_text us).
+  forall stp o st fc us,
+    (o_multi o = true /\ forallb not_flag us = true) \/ forallb is_key us = true ->
+    run_events stp o st true fc us = do st' <- run_uses_gen stp o st (map use_text us); Ok (st', fc).
 Proof. exact cont_free_values. Qed.
 Print Assumptions C06_cont_free_values.
 
 (** ... otherwise the first free value is refused. *)
 Theorem C06_cont_free_value_refused :
-  forall stp o st hl pre v post,
-    o_multi o = false -> forall st', run_events stp o st hl (pre ++ UFree v :: post) <> Ok st'.
+  forall stp o st hl fc pre v post,
+    o_multi o = false -> forall r, run_events stp o st hl fc (pre ++ UFree v :: post) <> Ok r.
 Proof. exact cont_free_value_refused. Qed.
 Print Assumptions C06_cont_free_value_refused.
+
+(** Another argument (here: a flag) ends the value list: a free value after it
+    does not reach the container; without a positional argument the command
+    line is refused - also in multi-value mode. *)
+Theorem C06_cont_flag_ends_value_list :
+  forall stp o st hl fc pre v post,
+    forall r, run_events stp o st hl fc (pre ++ UFlag :: UFree v :: post) <> Ok r.
+Proof. exact cont_flag_ends_value_list. Qed.
+Print Assumptions C06_cont_flag_ends_value_list.
+
+(** Whatever command line is accepted, the container is the result of its own
+    uses in order (so all theorems about [run_uses] apply); uses of the flag
+    only influence acceptance. *)
+Theorem C06_cont_events_uses :
+  forall stp o us st hl fc st1 fc1,
+    run_events stp o st hl fc us = Ok (st1, fc1) ->
+    run_uses_gen stp o st (map use_text (filter not_flag us)) = Ok st1.
+Proof. exact cont_events_uses. Qed.
+Print Assumptions C06_cont_events_uses.
 
 (** Clear-before-assign discards earlier content exactly once: the uses behave
     like the same uses without the option on the emptied destination (so what
@@ -194,12 +214,124 @@ Theorem C06_cont_fixed_refuses_overflow_bitset :
 Proof. exact cont_fixed_refuses_overflow_bitset. Qed.
 Print Assumptions C06_cont_fixed_refuses_overflow_bitset.
 
+(** vector<string>: checks and formats are applied to every element before the
+    unique test ([conv_str] = the checked and formatted element); without
+    unique data the destination is the earlier content followed by these
+    values in order (sorted in byte order if so configured). *)
+Theorem C06_cont_strs_content :
+  forall p o st u rest st' l0,
+    o_uniq o = false -> c_val st = CStrs l0 ->
+    run_uses_gen (step_gen p KVecStr o) o st (u :: rest) = Ok st' ->
+    exists l vals, c_val st' = CStrs l /\
+      Forall2 (fun t v => conv_str o t = Ok v) (all_tokens o (u :: rest)) vals /\
+      (o_sort o = false -> l = start_strs st l0 ++ vals) /\
+      (o_sort o = true -> l = sort_by str_ltb (start_strs st l0 ++ vals)).
+Proof. exact cont_strs_content. Qed.
+Print Assumptions C06_cont_strs_content.
+
+Theorem C06_cont_strs_unique_drop :
+  forall p o st u rest st' l0,
+    o_uniq o = true -> o_dup_err o = false ->
+    c_val st = CStrs l0 -> NoDup (start_strs st l0) ->
+    run_uses_gen (step_gen p KVecStr o) o st (u :: rest) = Ok st' ->
+    exists l, c_val st' = CStrs l /\ NoDup l /\
+      forall z, In z l <->
+        In z (start_strs st l0) \/ exists t, In t (all_tokens o (u :: rest)) /\ conv_str o t = Ok z.
+Proof. exact cont_strs_unique_drop. Qed.
+Print Assumptions C06_cont_strs_unique_drop.
+
+Theorem C06_cont_strs_unique_refuse :
+  forall p o st u rest st' l0,
+    o_uniq o = true -> o_dup_err o = true ->
+    c_val st = CStrs l0 -> NoDup (start_strs st l0) ->
+    run_uses_gen (step_gen p KVecStr o) o st (u :: rest) = Ok st' ->
+    exists l vals, c_val st' = CStrs l /\
+      Forall2 (fun t v => conv_str o t = Ok v) (all_tokens o (u :: rest)) vals /\
+      Permutation l (start_strs st l0 ++ vals) /\ NoDup (start_strs st l0 ++ vals) /\
+      (o_sort o = false -> l = start_strs st l0 ++ vals).
+Proof. exact cont_strs_unique_refuse. Qed.
+Print Assumptions C06_cont_strs_unique_refuse.
+
+(** map<string,int>: keys stay strictly ascending; an entry that was there
+    before keeps its value; otherwise the FIRST element with that key decides
+    (std::map::insert does not overwrite; with unique data the later elements
+    are dropped before their value is converted); otherwise the key is absent. *)
+Theorem C06_cont_map_content :
+  forall p o st u rest st' l0,
+    c_val st = CMap l0 -> keys_sorted (start_map st l0) ->
+    run_uses_gen (step_gen p KMap o) o st (u :: rest) = Ok st' ->
+    exists l, c_val st' = CMap l /\ keys_sorted l /\
+      forall key, map_entry_spec (start_map st l0) (all_tokens o (u :: rest)) key (map_get key l).
+Proof. exact cont_map_content. Qed.
+Print Assumptions C06_cont_map_content.
+
+(** ... with "duplicates are errors" the uses are accepted only if all keys are
+    new and pairwise different ... *)
+Theorem C06_cont_map_unique_refuse :
+  forall p o st u rest st' l0,
+    o_uniq o = true -> o_dup_err o = true ->
+    c_val st = CMap l0 -> keys_sorted (start_map st l0) ->
+    run_uses_gen (step_gen p KMap o) o st (u :: rest) = Ok st' ->
+    NoDup (map fst (start_map st l0) ++ map tok_key (all_tokens o (u :: rest))).
+Proof. exact cont_map_unique_refuse. Qed.
+Print Assumptions C06_cont_map_unique_refuse.
+
+(** ... and every accepted element is a pair "key,value" with both parts non-empty. *)
+Theorem C06_cont_map_pair_format :
+  forall p o st uses st' l0,
+    c_val st = CMap l0 ->
+    run_uses_gen (step_gen p KMap o) o st uses = Ok st' ->
+    Forall (fun t => tok_key t <> [] /\ tok_val t <> []) (all_tokens o uses).
+Proof. exact cont_map_pair_format. Qed.
+Print Assumptions C06_cont_map_pair_format.
+
+(** fold and cut independence for the map are the instances of the general theorems *)
+Corollary C06_cont_map_cut_independent :
+  forall o st uses1 uses2,
+    setup_ok KMap o = true -> card_cut_ok o uses1 -> card_cut_ok o uses2 ->
+    all_tokens o uses1 = all_tokens o uses2 -> is_nil uses1 = is_nil uses2 ->
+    run_uses KMap o st uses1 = run_uses KMap o st uses2.
+Proof. exact (cont_cut_independent KMap). Qed.
+Print Assumptions C06_cont_map_cut_independent.
+
+(** The accept / refuse table of the definition-time setters, as the model has
+    it (tied to setSortData / setUniqueData / setClearBeforeAssign / addFormat /
+    setListSep by the correspondence check: every refused subset is a case). *)
+Theorem C06_setup_table :
+  forall k o,
+    setup_ok k o = true <->
+    (o_sort o = true -> sortable k = true) /\
+    (o_uniq o = true -> has_iter k = true) /\
+    (o_clear o = true -> clearable k = true) /\
+    (o_fmts o <> [] -> k <> KTuple) /\
+    (k = KMap -> o_sep o <> COMMA).
+Proof. exact setup_ok_table. Qed.
+Print Assumptions C06_setup_table.
+
+Theorem C06_sortable_table :
+  forall k, sortable k = true <->
+    In k [KVec; KDeque; KList; KFwd; KVecStr] \/ exists n, k = KArr n \/ k = KStdArr n.
+Proof. exact sortable_table. Qed.
+Print Assumptions C06_sortable_table.
+
+Theorem C06_has_iter_table :
+  forall k, has_iter k = true <->
+    In k [KVec; KDeque; KList; KFwd; KSet; KMSet; KUSet; KUMSet; KVecStr; KMap] \/
+    exists n, k = KArr n \/ k = KStdArr n.
+Proof. exact has_iter_table. Qed.
+Print Assumptions C06_has_iter_table.
+
+Theorem C06_clearable_table :
+  forall k, clearable k = false <-> k = KTuple \/ exists n, k = KArr n \/ k = KStdArr n.
+Proof. exact clearable_table. Qed.
+Print Assumptions C06_clearable_table.
+
 (** The pinned tree violates the property in two places (both repaired, see
     fixes/C06-1, C06-2): on the pinned element steps the statements of
     [C06_cont_array_unique_drop] and [C06_cont_vector_bool_positions] fail. *)
 Theorem C06_pinned_array_unique_refuted :
   exists o ws st l i,
-    eval_pinned (KArr 4) o (CArr [0; 0; 0; 0]%Z 0) ws = Ok st /\ c_val st = CArr l i /\
+    eval_pinned (KArr 4) o (CArr [0; 0; 0; 0]%Z 0) [] ws = Ok (st, 0%Z) /\ c_val st = CArr l i /\
     conv_int o [48%N] = Ok 0%Z /\ In [48%N] (all_tokens o [[48; 44; 53]%N]) /\
     ws = [[45; 108]; [48; 44; 53]]%N /\ ~ In 0%Z (firstn i l).
 Proof.
@@ -211,7 +343,7 @@ Print Assumptions C06_pinned_array_unique_refuted.
 
 Theorem C06_pinned_vector_bool_refuted :
   exists o ws st size l,
-    eval_pinned KVecBool o (CVBool 1 []) ws = Ok st /\ c_val st = CVBool size l /\
+    eval_pinned KVecBool o (CVBool 1 []) [] ws = Ok (st, 0%Z) /\ c_val st = CVBool size l /\
     lex_size (apply_fmts (o_fmts o) [49%N]) = Ok 1%N /\ ws = [[45; 108]; [49]]%N /\ ~ In 1%N l.
 Proof.
   exists (o_plain KVecBool), w_vb. eexists. exists 1%N, [].
@@ -241,16 +373,45 @@ Proof. split; [vm_compute; reflexivity|left; reflexivity]. Qed.
 
 (** the two fixed witnesses *)
 Example C06_fixed_array_unique :
-  option_map c_val (match eval (KArr 4) (o_uniq_only (KArr 4)) (CArr [0; 0; 0; 0]%Z 0) w_arr with
-                    | Ok st => Some st | _ => None end) = Some (CArr [0; 5; 0; 0]%Z 2).
+  option_map c_val (match eval (KArr 4) (o_uniq_only (KArr 4)) (CArr [0; 0; 0; 0]%Z 0) [] w_arr with
+                    | Ok r => Some (fst r) | _ => None end) = Some (CArr [0; 5; 0; 0]%Z 2).
 Proof. vm_compute; reflexivity. Qed.
 
 Example C06_fixed_vector_bool :
-  option_map c_val (match eval KVecBool (o_plain KVecBool) (CVBool 1 []) w_vb with
-                    | Ok st => Some st | _ => None end) = Some (CVBool 2 [1%N]).
+  option_map c_val (match eval KVecBool (o_plain KVecBool) (CVBool 1 []) [] w_vb with
+                    | Ok r => Some (fst r) | _ => None end) = Some (CVBool 2 [1%N]).
 Proof. vm_compute; reflexivity. Qed.
 
 (** a fifth element for T[4] is refused *)
 Example C06_nonvacuous_overflow :
-  is_ok (eval (KArr 4) (o_plain (KArr 4)) (CArr [0; 0; 0; 0]%Z 0) [[45; 108]; [49; 44; 50; 44; 51; 44; 52; 44; 53]]%N) = false.
+  is_ok (eval (KArr 4) (o_plain (KArr 4)) (CArr [0; 0; 0; 0]%Z 0) [] [[45; 108]; [49; 44; 50; 44; 51; 44; 52; 44; 53]]%N) = false.
+Proof. vm_compute; reflexivity. Qed.
+
+(** "-l 1 2 -f 9" with a multi-value vector and the flag -f: refused; "-l 1 2 -f" accepted *)
+Definition o_multi_only : copts :=
+  {| o_sep := 44; o_clear := false; o_sort := false; o_uniq := false; o_dup_err := false; o_multi := true;
+     o_checks := []; o_fmts := []; o_card := CardNone |}.
+Example C06_nonvacuous_flag :
+  is_ok (eval KVec o_multi_only (CInts []) [[45; 102]]%N [[45; 108]; [49]; [50]; [45; 102]; [57]]%N) = false /\
+  option_map (fun r => (c_val (fst r), snd r))
+    (match eval KVec o_multi_only (CInts []) [[45; 102]]%N [[45; 108]; [49]; [50]; [45; 102]]%N with
+     | Ok r => Some r | _ => None end) = Some (CInts [1; 2]%Z, 1%Z).
+Proof. split; vm_compute; reflexivity. Qed.
+
+(** map: "b,2;a,1;b,3" on a map holding {a:7}: a keeps 7, b gets its first value 2 *)
+Example C06_nonvacuous_map :
+  option_map c_val (match run_uses KMap (o_plain KMap) (init_state (o_plain KMap) (CMap [([97%N], 7%Z)]))
+                            [[98; 44; 50; 59; 97; 44; 49; 59; 98; 44; 51]%N] with
+                    | Ok s => Some s | _ => None end) = Some (CMap [([97%N], 7%Z); ([98%N], 2%Z)]).
+Proof. vm_compute; reflexivity. Qed.
+
+(** vector<string>, format "upper" + unique: "ab,AB,c" stores AB and C *)
+Example C06_nonvacuous_strs :
+  option_map c_val
+    (match run_uses KVecStr
+             {| o_sep := 44; o_clear := false; o_sort := false; o_uniq := true; o_dup_err := false; o_multi := false;
+                o_checks := []; o_fmts := [FUpper]; o_card := CardNone |}
+             {| c_val := CStrs []; c_clearp := false; c_cnt := 0 |}
+             [[97; 98; 44; 65; 66; 44; 99]%N] with
+     | Ok s => Some s | _ => None end) = Some (CStrs [[65; 66]; [67]]%N).
 Proof. vm_compute; reflexivity. Qed.
